@@ -45,3 +45,34 @@ package m
 //@   ensures leading-zeros-removed [C12]: (exists k int :: 0 <= k && k < len(block) && old(block[len(block)-1-k]) != 0) ==> block[0] != 0
 //@   ensures all-zero-stays [C12]: (forall k int :: 0 <= k && k < len(block) ==> old(block[k]) == 0) ==> (forall k int :: 0 <= k && k < len(block) ==> block[k] == 0)
 
+
+// ---- self-certifying addresses (C01) ------------------------------------------------------------
+
+//@ pred hashvalid(h crop.Hash) = uf("hashvalid", bool, h)
+//@ fun be16(hi uint8, lo uint8) int = int(uint16(lo) | uint16(hi)<<8)
+
+//@ func makeAddressDigestData
+//@   modifies nothing
+//@   requires len(keyToolID) <= 255 && len(pubKeyData) <= 65535
+//@   ensures layout [C01]: len(result) == 4 + len(keyToolID) + len(pubKeyData) && result[0] == 1 && result[1] == uint8(len(keyToolID)) && be16(result[2], result[3]) == len(pubKeyData)
+//@   ensures key-bytes [C01]: forall i int :: 0 <= i && i < len(pubKeyData) ==> result[4+len(keyToolID)+i] == pubKeyData[i]
+
+//@ func makeAddressDigest
+//@   modifies nothing
+//@   requires hashvalid(digestAlg) && len(keyToolID) <= 255 && len(pubKeyData) <= 65535
+
+// VerifyAddressKey is total: any combination of inputs is answered with nil or an error, never a panic.
+//@ func VerifyAddressKey
+//@   modifies nothing
+//@   callsite ConstantTimeCompare digest-prefix-vs-address [C01]: len(arg0) == 16 && ip.IsValid()
+//@   ensures accepted-only-if-valid [C01,C13]: result == nil ==> hashvalid(digestAlg) && keyType == "Ed25519" && len(pubKeyData) == 32 && ip.IsValid()
+//@   ensures accepted-only-if-digest-matches [C01]: result == nil ==> ctcmp_ok
+
+//@ type PublicAddress
+//@   ghost verified bool
+//@   invariant verified-key [C01]: self.verified ==> len(self.PublicKey) == 32 && self.Type == "Ed25519" && hashvalid(self.Hash) && self.IP.IsValid()
+
+//@ func PublicAddress.VerifyAddress
+//@   modifies nothing
+//@   update when result == nil: addr.verified = true
+//@   ensures accepted-only-if-valid [C01,C13]: result == nil ==> hashvalid(addr.Hash) && addr.Type == "Ed25519" && len(addr.PublicKey) == 32 && addr.IP.IsValid()
